@@ -402,9 +402,18 @@ def r17i(run):
         base_calls = [(n, c) for n, c in ra.all_calls() if call_attr(c) == "resolve_forward_refs"
                       and unparse(c.func.value) not in ("self", "super()")]
         sup = [(n, c) for n, c in ra.all_calls() if call_attr(c) == "resolve_forward_refs" and unparse(c.func.value) == "super()"]
-        over_bases = any(any(b.kind == "branch" and b.is_for and b.polarity and ("__bases__" in unparse(b.stmt.iter)
-                                                                                  or "__mro__" in unparse(b.stmt.iter))
-                             for b in ra.cfg.dominators()[n]) for n, c in base_calls)
+        def reaches_all_levels(n, c):
+            for b in ra.cfg.dominators()[n]:
+                if b.kind == "branch" and b.is_for and b.polarity:
+                    it = unparse(b.stmt.iter)
+                    if "__mro__" in it:
+                        return True         # every ancestor is visited here
+                    if "__bases__" in it:
+                        # direct bases only: the call must be the base parser's *own* (overriding, hence recursive) method,
+                        # not the plain implementation called on it
+                        return isinstance(c.func.value, ast.Name) and not c.func.value.id[:1].isupper()
+            return False
+        over_bases = bool(base_calls) and all(reaches_all_levels(n, c) for n, c in base_calls)
         # no guard that skips a base whose own table is empty: its bases may still hold pending entries
         unguarded = all(not any("forward_refs" in unparse(a) for a, p in ra.facts.atoms_at(n)) for n, c in base_calls)
         chained = bool(base_calls) and bool(sup) and over_bases and unguarded
